@@ -1,5 +1,6 @@
 import Driver.Util
 import F3.Model.Participant
+import F3.Model.Valid
 /-! Driver for area `gpbft` (C01, C02, C03, C06, C07): replays every honest participant's op trace through
 `F3.Instance.step`, compares effects/progress/return class, and evaluates the property oracles on the
 implementation's own observations (independently of the model). -/
@@ -280,6 +281,11 @@ def processOp (st : St) (pid : Pid) (kind : String) (now : Int) (detail effsS pr
       | some pg =>
         let fails := fails ++ (if progLe o2.lastProg pg then [] else [s!"C07-progress-went-backwards {o2.lastProg} -> {pg}"])
         let fails := fails ++ (if implRet == "err:internal" || implRet == "panic" then [s!"C07-internal-error-or-panic {retS}"] else [])
+        -- the hypothesis of the end-to-end theorems (C01.agreement_model, C02.validity_model) about delivered
+        -- messages, as far as it can be seen on one message: shape, justification shape, strong signer set
+        let fails := fails ++ (match msg? with
+          | some mg => if msgStructB st.tbl mg then [] else [s!"C01-C02-C03-delivered-message-violates-MsgValid {detail}"]
+          | none => [])
         let o3 := { o2 with lastProg := pg, decidedAtRound := if o2.decided.isSome && o.decided.isNone then pg.2.1 else o2.decidedAtRound }
         let st' := { st with models := update st.models pid m', obs := update st.obs pid o3 }
         if !fails.isEmpty then (st', .oracle (s!"node={pid} " ++ "; ".intercalate fails))
